@@ -4,11 +4,15 @@ ops:
   parse <incoming 0|1> <hex> <gp>   -> `err:<kind>` | `ok <local> <remote> <lport> <rport> <proto> <frag> <hdrlen> <fragany>`
         <gp> is what gopacket (a second, unrelated decoder, run by the harness when it generated the op)
         found: `-` (no clean decode) or `<proto>:<hdrlen>:<sport>:<dport>` for an unfragmented TCP/UDP packet.
+        The executor parses every packet twice, into two reused ParsedPackets pre-filled with complementary
+        garbage in every field; when the two answers differ it reports `<answer A> ## <answer B>`
+        (class `history-dependent` unless one of the two is already bad on its own).
   upper <hex>                       -> `err` | `ok <nextHeader> <offset> <isFragment> <anyFragment>`   (iputil.IPv6FindUpperProtocol)
 -/
 import Nebula.Driver.Common
 import Nebula.Model.PktParse
 import Nebula.Spec.IP
+import Nebula.Spec.IPPorts
 
 namespace Nebula.Driver.PktParse
 open Nebula.Driver Nebula.Pkt
@@ -79,15 +83,30 @@ def step (s : Unit) (args : List String) (impl : String) : Unit × Out :=
     | some inc, some d =>
       let m := newPacket d inc
       let sp := Spec.IP.parse d
-      let verdict :=
+      let one (impl : String) : String :=
         if impl.startsWith "PANIC" then "bad panic"
         else if impl.startsWith "err:" then "ok"          -- rejecting is always allowed by the property
         else match readClass impl with
           | none => "bad unreadable-answer"
           | some c =>
             match sp with
-            | some p => if Spec.IP.acceptable p inc c then "ok" else s!"bad {badClass d sp inc c}"
+            | some p =>
+              if !(Spec.IP.acceptable p inc c) then s!"bad {badClass d sp inc c}"
+              -- every reported port must be found in the packet (Props/C20.lean: model_ports_from_packet)
+              else if !(Spec.IP.portsFromPacket p inc c) then
+                s!"bad ports-not-from-packet proto={c.proto} lport={c.localPort} rport={c.remotePort}"
+              else "ok"
             | none => s!"bad {badClass d sp inc c}"
+      -- the answer must be a function of (bytes, direction): two dirty ParsedPackets, one answer
+      let verdict :=
+        match impl.splitOn " ## " with
+        | [a] => one a
+        | [a, b] =>
+          let va := one a
+          if va != "ok" then va else
+          let vb := one b
+          if vb != "ok" then vb else "bad history-dependent"
+        | _ => "bad unreadable-answer"
       let verdict := if verdict == "ok" then gpVerdict gp sp else verdict
       let k := Spec.IP.extCount d
       let ver := Spec.IP.byte d 0 / 16
